@@ -68,7 +68,13 @@ func (e *emitter) op(name string, args ...string) string {
 		fmt.Fprintf(e.w, "%s %s\t", name, strings.Join(args, " "))
 		e.w.Flush()
 	}
-	res := guardT(opLimit(name), func() string { return f(args) })
+	// the watchdog: the op's limit plus one second per 64 K characters of arguments (a round trip of a message of 65 535 IEs is
+	// megabytes of value tokens: seconds of honest work on a loaded machine)
+	argLen := 0
+	for _, a := range args {
+		argLen += len(a)
+	}
+	res := guardT(opLimit(name)+time.Duration(argLen/65536)*time.Second, func() string { return f(args) })
 	// input-only arguments must not have been written to by the implementation
 	if res != "hang" {
 		for _, c := range constArgs {
